@@ -516,5 +516,70 @@ def intersectLoop (q : Q K) (b : Aabb3 K) : Nat → List Nat → List Nat → Op
 def intersectAabb (q : Q K) (b : Aabb3 K) : Option (List Nat) :=
   if q.nodes.size = 0 then some [] else intersectLoop q b (4 * q.nodes.size + 8) [0] []
 
+/-! ## `Qbvh::traverse_bvtt_with_stack` with `BoundingVolumeIntersectionsSimultaneousVisitor` (traversal.rs) -/
+
+/-- one lane of `SimdAabb::transform_by` (the visitor's `right_bv.transform_by(pos12)`) -/
+def posedBox (pos : Option (Iso3 K)) (b : Aabb3 K) : Aabb3 K :=
+  match pos with
+  | some m => b.transformBy m
+  | none => b
+
+/-- `left_bv.intersects_permutations(right_bv)`: `mask ii jj` -/
+def pairMask (pos : Option (Iso3 K)) (n1 n2 : Node K) (ii jj : Nat) : Bool :=
+  match n1.boxes[ii]?, n2.boxes[jj]? with
+  | some a, some b => boxIntersects a (posedBox pos b)
+  | _, _ => false
+
+def lanes4 : List Nat := [0, 1, 2, 3]
+
+/-- one popped entry `(e1, e2)`: the leaf pairs reported by the visitor (appended to `out`, reversed) and the entries pushed
+(head = top of the stack).  `none` = index panic. -/
+def bvttVisit (q1 q2 : Q K) (pos : Option (Iso3 K)) (e1 e2 : Nat) (stack : List (Nat × Nat)) (out : List (Nat × Nat)) :
+    Option (List (Nat × Nat) × List (Nat × Nat)) :=
+  match q1.nodes[e1]?, q2.nodes[e2]? with
+  | some n1, some n2 =>
+    let child (nd : Node K) (l : Nat) : Nat := (nd.children[l]?).getD MAXN
+    -- visitor: leaf/leaf → callback on every occupied lane pair whose boxes intersect
+    let out1 :=
+      if n1.leaf && n2.leaf then
+        lanes4.foldl (fun o ii =>
+          match q1.proxies[child n1 ii]? with
+          | none => o
+          | some p1 =>
+            lanes4.foldl (fun o jj =>
+              match q2.proxies[child n2 jj]? with
+              | none => o
+              | some p2 => if pairMask pos n1 n2 ii jj then (p1.data, p2.data) :: o else o) o) out
+      else out
+    let stack1 :=
+      if n1.leaf && n2.leaf then stack
+      else if n1.leaf then
+        lanes4.foldl (fun st jj =>
+          if lanes4.any (fun ii => pairMask pos n1 n2 ii jj) && decide (child n2 jj ≤ q2.nodes.size) then (e1, child n2 jj) :: st else st) stack
+      else if n2.leaf then
+        lanes4.foldl (fun st ii =>
+          if lanes4.any (fun jj => pairMask pos n1 n2 ii jj) && decide (child n1 ii ≤ q1.nodes.size) then (child n1 ii, e2) :: st else st) stack
+      else
+        lanes4.foldl (fun st ii =>
+          lanes4.foldl (fun st jj =>
+            if pairMask pos n1 n2 ii jj && decide (child n1 ii ≤ q1.nodes.size) && decide (child n2 jj ≤ q2.nodes.size)
+            then (child n1 ii, child n2 jj) :: st else st) st) stack
+    some (stack1, out1)
+  | _, _ => none
+
+/-- the `while let Some(entry) = stack.pop()` loop; `none` = index panic or fuel exhausted -/
+def bvttLoop (q1 q2 : Q K) (pos : Option (Iso3 K)) : Nat → List (Nat × Nat) → List (Nat × Nat) → Option (List (Nat × Nat))
+  | _, [], out => some out.reverse
+  | 0, _ :: _, _ => none
+  | fuel + 1, (e1, e2) :: stack, out =>
+    match bvttVisit q1 q2 pos e1 e2 stack out with
+    | none => none
+    | some r => bvttLoop q1 q2 pos fuel r.1 r.2
+
+/-- `q1.traverse_bvtt(&q2, &mut BoundingVolumeIntersectionsSimultaneousVisitor::…)`: the reported pairs in order -/
+def traverseBvtt (q1 q2 : Q K) (pos : Option (Iso3 K)) : Option (List (Nat × Nat)) :=
+  if q1.nodes.size = 0 || q2.nodes.size = 0 then some []
+  else bvttLoop q1 q2 pos (16 * (q1.nodes.size + 1) * (q2.nodes.size + 1)) [(0, 0)] []
+
 end Qbvh
 end Model
